@@ -891,6 +891,9 @@ def oracle_c18_blocks(ctx, budget_s):
                      "random sequence of constructions (Nest twice, Repeat, Merge, a second CrossBlock); every block "
                      "must have the trial count and exhausted set of the same expression built from fresh objects")
     t_end = ctx.elapsed() + budget_s
+    _c18_argument_lists(ctx)
+    if ctx.failures:
+        return
     it = 0
     while ctx.elapsed() < t_end:
         it += 1
@@ -967,6 +970,67 @@ def oracle_c18_blocks(ctx, budget_s):
                 break
         if ctx.failures:
             return
+
+
+def _c18_argument_lists(ctx):
+    """Combinators called the way the documentation writes them - relying on the default `constraints` argument, or
+    handing the same list object to two calls: the caller's list must stay as it was, and a later construction must
+    not inherit constraints from an earlier one."""
+    def count(blk):
+        exps = O.synth(blk, O.CAP_SOLUTIONS + 1, "IterateSATGen", timeout=40)
+        return len(exps)
+
+    def factors():
+        return [sp.Factor(n, [n + "1", n + "2"]) for n in ("A", "B", "C")]
+    ctx.rules.append("C18 oracle (argument lists): Merge / Repeat / Nest built with the default constraints argument or a "
+                     "shared list after an earlier construction whose blocks carry constraints: same solutions as with "
+                     "a fresh explicit list; the caller's list is not modified")
+    try:
+        for kind in ("merge", "repeat", "nest"):
+            A, B, C = factors()
+            b1 = sp.CrossBlock([A, B, C], [A], [sp.Pin(0, C["C1"])])
+            b2 = sp.CrossBlock([A, B, C], [B], [sp.AtMostKInARow(1, C["C1"])])
+            shared = []
+            if kind == "merge":
+                quiet(sp.Merge, [b1, b2])                       # default argument
+                quiet(sp.Merge, [b1, b2], shared)               # caller's list
+            elif kind == "repeat":
+                quiet(sp.Repeat, b1, shared)                    # (Repeat has no default)
+            else:
+                inner = sp.CrossBlock([sp.Factor("S", ["s1", "s2"])], [], []) if False else None
+                S = sp.Factor("S", ["s1", "s2"])
+                quiet(sp.Nest, b1, sp.CrossBlock([S], [S], []))
+                quiet(sp.Nest, b1, sp.CrossBlock([S], [S], []), shared)
+            ctx.count("C18.argument-lists")
+            if shared != []:
+                case = O.Case(ctx, {"factors": [], "block": {"k": kind}})
+                case.regs = set()
+                report(ctx, "sharing", case, "%s modified the constraints list it was given (now %d entries)" % (kind, len(shared)), {"kind": kind})
+                return
+            # a constraint-free construction afterwards, default argument vs explicit fresh list
+            A2, B2, C2_ = factors()
+            def plain():
+                return [sp.CrossBlock([A2, B2, C2_], [A2], []), sp.CrossBlock([A2, B2, C2_], [B2], [])]
+            if kind == "merge":
+                got, want = count(quiet(sp.Merge, plain())), count(quiet(sp.Merge, plain(), []))
+                again = count(quiet(sp.Merge, plain(), shared))
+            elif kind == "repeat":
+                want = count(quiet(sp.Repeat, plain()[0], []))
+                got = again = count(quiet(sp.Repeat, plain()[0], shared))
+            else:
+                S2 = sp.Factor("S", ["s1", "s2"])
+                got = count(quiet(sp.Nest, plain()[0], sp.CrossBlock([S2], [S2], [])))
+                want = count(quiet(sp.Nest, plain()[0], sp.CrossBlock([S2], [S2], []), []))
+                again = count(quiet(sp.Nest, plain()[0], sp.CrossBlock([S2], [S2], []), shared))
+            ctx.case(("C18args", kind), True)
+            if got != want or again != want:
+                case = O.Case(ctx, {"factors": [], "block": {"k": kind}})
+                case.regs = set()
+                report(ctx, "sharing", case, "%s built with the default / a reused constraints list after an earlier %s: %d / %d "
+                       "solutions; with a fresh explicit list: %d" % (kind, kind, got, again, want), {"kind": kind})
+                return
+    except O.CallTimeout:
+        return
 
 
 def _ntrials(desc):
